@@ -581,21 +581,65 @@ def from_pjson(j):
     return P.pmk(c, [from_pjson(k) for k in j["kids"]], rng, j.get("group", False))
 
 
+FAMILIES = {
+    "binders and arrows": ["LeftParen", "RightParen", "LeftCurly", "RightCurly", "Identifier", "Colon", "ThickArrow", "ThinArrow", "Type"],
+    "definitions": ["Identifier", "Equals", "Colon", "Semicolon", "LineBreak", "IntegerLiteral", "Plus", "LeftParen", "RightParen"],
+    "operators": ["Identifier", "IntegerLiteral", "Plus", "Minus", "Asterisk", "Slash", "LessThan", "DoubleEquals", "LeftParen", "RightParen"],
+    "conditionals": ["If", "Then", "Else", "True", "Identifier", "LeftParen", "RightParen", "ThickArrow"],
+}
+
+
+def run_conformance(H, quick, want_b3=False):
+    """Part B: the packrat functions on symbolic token sequences against grammar.y."""
+    import parse_common as PC
+    import c09
+    import c03
+    from gramsym.parallel import parallel_explore
+    PC.validate_parser(H, 30 if quick else 150)
+    first, last = c09.first_last()
+    g = PC.Grammar()
+    ob = PC.conformance_obligations(g, want_b3=want_b3, want_b12=True)
+    nfull = int(os.environ.get("C07_N", "0")) or (3 if quick else 5)
+    nfam = int(os.environ.get("C07_NF", "0")) or (5 if quick else 7)
+    runs = [("all %d token kinds, %d tokens" % (len(PC.K.KINDS), n), n, None) for n in range(1, nfull + 1)]
+    for fam, alpha in FAMILIES.items():
+        for n in range(nfull + 1, nfam + 1):
+            runs.append(("family '%s' (%d kinds), %d tokens" % (fam, len(alpha), n), n, alpha))
+    for name, n, alpha in runs:
+        t0 = time.time()
+        m = parallel_explore(PC.parser_factory(H, n, ob, first, last, alphabet=alpha), H.jobs)
+        H.absorb_merged("B: " + name, m)
+        H.log("B: %s: %d paths %s, %d obligations, %d discharged, %d workers, %.1fs" % (
+            name, m.stats.get("paths", 0), m.counters, m.stats.get("obligations", 0), m.stats.get("discharged", 0), m.workers, time.time() - t0))
+        c03.handle(H, m.violations, confirm_fn=PC.confirm_conformance, classify_fn=lambda l, c: None)
+    return "every token sequence of 1..%d tokens over all token kinds; sequences of %d..%d tokens over the families %s" % (
+        nfull, nfull + 1, nfam, "; ".join("%s = {%s}" % (k, " ".join(v)) for k, v in FAMILIES.items()))
+
+
 def main():
     H = Harness(PID)
     quick = H.tier == "quick"
     if H.args.replay:
         with open(H.args.replay) as fh:
             rec = json.load(fh)
-        reproduced, detail = confirm(H, rec["label"], rec["case"])
+        if rec["label"].startswith("B"):
+            import parse_common as PC
+            reproduced, detail = PC.confirm_conformance(H, rec["label"], rec["case"])
+        else:
+            reproduced, detail = confirm(H, rec["label"], rec["case"])
         print(("REPRODUCED: " if reproduced else "NOT REPRODUCED: ") + detail)
         return 1 if reproduced else 0
-    validate(H, 60 if quick else 300)
-    run_reassociation(H, 4 if quick else 5)
-    run_grammar(H, 6 if quick else 8)
+    parts = os.environ.get("C07_PARTS", "ABC")
+    if "A" in parts:
+        validate(H, 60 if quick else 300)
+        run_reassociation(H, 4 if quick else 5)
+    if "C" in parts:
+        run_grammar(H, 6 if quick else 8)
+    nb = run_conformance(H, quick) if "B" in parts else "not run"
     H.bounds.update({"A": "expressions with at most %d operands over application, * /, + - and parentheses; operators, group flags, names and positions symbolic" % (4 if quick else 5),
                      "C": "token strings of length <= %d over the 28 token kinds" % (6 if quick else 8),
-                     "outside": "part B (which token strings the packrat functions accept) is not claimed; longer chains; formers other than the three chain levels inside chains"})
+                     "B": nb,
+                     "outside": "token strings longer than the bounds of part B; longer chains; formers other than the three chain levels inside chains"})
     H.assumptions += ["the right-nested input trees are built as the packrat functions build them (span of first to last token, group flag on parenthesised terms only)"]
     return H.finish()
 
